@@ -21,6 +21,11 @@ def replaySegments (ops : List (List String)) (rs : List FReply) : List (List FW
     | _, _ => acc) ([], [])
   (segs, q)
 
+/-- decode times a segment describes: `tfdt`, then each sample's time is the previous one plus the
+    previous sample's duration -/
+def describedDts (tfdt : Nat) (durs : List Nat) : List Nat :=
+  (durs.foldl (fun (acc : List Nat × Nat) d => (acc.1 ++ [acc.2], acc.2 + d)) ([], tfdt)).1
+
 def oracleC10 (ops : List (List String)) (rs : List FReply) : Bool :=
   if rs.any (· == .panic) || rs.length != ops.length then false else
   let (segs, _) := replaySegments ops rs
@@ -28,7 +33,10 @@ def oracleC10 (ops : List (List String)) (rs : List FReply) : Bool :=
   let segOk := (List.zip (List.range segs.length) segs).all fun (i, (ws, b)) =>
     match parseSegment b with
     | none => false
-    | some s => s.seq == i + 1 && s.sampleBytes b == some (ws.map (·.data)) && !ws.isEmpty
+    | some s => s.seq == i + 1 && s.sampleBytes b == some (ws.map (·.data)) && !ws.isEmpty &&
+        -- "none ... altered": the decode and presentation time each sample is described with are the submitted ones
+        describedDts s.tfdt (s.rows.map fun r => r.duration.getD 0) == ws.map (·.dts) &&
+        (s.rows.map (·.cto)) == ws.map (fun w => some ((w.pts : Int) - (w.dts : Int)))
   -- replies: write rejected iff dts < last accepted; flush with nothing queued yields none
   let walk := (List.zip ops rs).foldl (fun (acc : Bool × Option Nat × Nat) (op, r) =>
     let (ok, last, queued) := acc
